@@ -1,10 +1,33 @@
-"""C10"""
+"""C10 - Delayed reactions deliver their delayed part exactly once, after the delay."""
+import os
 CONTRACT_MODULES = ['types_delays', 'random_', 'simulator_queue', 'simulator_delay', 'simulator_ssa', 'simulator_interfaces']
-SPEC_MODULES = ['functions', 'lemmas_queue', 'lemmas_prob']
+SPEC_MODULES = ['functions', 'lemmas_queue', 'lemmas_prob', 'lemmas_lattice']
 LEVEL = 'proof'
-NOT_APPLICABLE = 'under construction'
-ASSUMPTIONS = []
+ASSUMPTIONS = [
+    'Box-Muller yields N(mean, std^2) and Marsaglia-Tsang (k >= 1) yields Gamma(k, theta): cited theorems; the code is proved to be those samplers over the explicit stream',
+    'termination of the gamma rejection loop is not proved',
+    'cos is uninterpreted (range [-1,1]); uniform_rv() == 0 excluded',
+    'accounting over a whole run (reported state + queued deliveries = every firing) follows from the step clauses and the queue accounting lemmas by induction over iterations (argument, not mechanised)',
+    'DelayVolumeSSASimulator is not under contract (see C07)',
+]
 TRUSTED = []
-EXPLANATION = ''
-LEVEL_TEXT = ''
-LEVEL_NOTE = ''
+EXPLANATION = ('Step relation R_delay verified on the real DelaySSASimulator loop body: the queue wins iff its next time precedes the proposed time; a delivery applies the delayed '
+               'stoichiometry of the head slot once and advances the queue once; a firing applies the immediate stoichiometry and queues exactly one unit at the slot nearest to '
+               't + delay, or applies the delayed part at once for a non-positive delay; queue operations through their verified contracts (C20); delay samplers against the '
+               'published algorithms; simulators without delay support use U + D (C05).')
+LEVEL_TEXT = 'Deductive proof of the per-step delay semantics for any network, grid, queue size and stream; distribution names of the samplers cited.'
+LEVEL_NOTE = 'See assumptions.'
+_HERE = os.path.dirname(os.path.dirname(os.path.abspath(__file__)))
+
+
+def _sweep(seed, rec):
+    src = open(os.path.join(_HERE, 'native', 'C10_sweep.py')).read()
+    return src.replace("json.loads(sys.argv[1]) if len(sys.argv) > 1 else {}", repr(dict(seed=seed)))
+
+
+def _qsweep(seed, rec):
+    src = open(os.path.join(_HERE, 'native', 'C20_sweep.py')).read()
+    return src.replace("int(sys.argv[1]) if len(sys.argv) > 1 else 0", str(int(seed)))
+
+
+NATIVE_SWEEPS = {'*': _sweep, 'simulator::ArrayDelayQueue.add_reaction': _qsweep}
